@@ -17,6 +17,8 @@
 // public API only. If no line shows up the race was not hit in that run; the scheduled replay
 // /verif/replays (signature "closed-fd-syscall write eventfd by stopping-thread") shows it
 // deterministically.
+// Status: repaired in /repo by "fix: Stop does not write its wake-up to descriptors the poller already
+// closed" (838694e): 17 EBADF writes in 1000 cycles before, 0 in 1000 cycles after.
 package main
 
 import (
